@@ -800,6 +800,56 @@ class Exec(ExecBase):
                         l, st3 = self.new_list(ety, "seq", st2, vs)
                         yield l, st3
                 continue
+            # symbolic seq iterable under a contract that asks for it: [x for x in L if p(x)] as a list object R with
+            #   every R[k] is some L[j] with p(L[j]);  every L[j] with p(L[j]) is some R[k]      (order and multiplicity left open)
+            # p may call functions under contract: the fresh symbols of that evaluation are closed existentially
+            if isinstance(it, VList) and it.view == "seq" and getattr(self.contract, "seq_filter", False) and kind == "list" \
+                    and isinstance(node.elt, ast.Name) and isinstance(gen.target, ast.Name) and node.elt.id == gen.target.id:
+                x = self.fresh(it.elem, "cx", None, constrain=False)
+                st_x = st1.bind(gen.target.id, x).assume(self.type_constraint(x))
+                base_n = len(st_x.pc)
+                pred = z3.BoolVal(True)
+                st_c = st_x
+                for c in gen.ifs:
+                    outs = list(self.ev(c, st_c))
+                    if len(outs) != 1:
+                        raise Unsupported("comprehension condition forks")
+                    pred = z3.And(pred, self.truth_st(outs[0][0], outs[0][1]).term)
+                    st_c = outs[0][1]
+                facts = list(st_c.pc[base_n:])
+                xt = self.term_of(x)
+                body = z3.And(facts + [pred]) if facts else pred
+                before = _fresh_consts(z3.And(st_x.pc)) if st_x.pc else {}
+                new_syms = [v for i_, v in _fresh_consts(body).items() if i_ not in before and not v.eq(xt)]
+
+                def P(y: Any) -> Any:
+                    b = z3.substitute(body, (xt, y))
+                    return z3.Exists(new_syms, b) if new_syms else b
+
+                def facts_of(y: Any) -> Any:
+                    """what evaluating the condition assumes / learns about an element (typing, class invariants, the
+                    contracts of the functions it calls): holds for every element of L just as it does for x"""
+                    if not facts:
+                        return z3.BoolVal(True)
+                    b = z3.substitute(z3.And(facts), (xt, y))
+                    return z3.Exists(new_syms, b) if new_syms else b
+                ref, st2 = self.alloc(st1)
+                ln = self.list_len(it, st2).term
+                rn = z3.Int(fresh_name("fl"))
+                key, el = self._elem_arr(st2, it.elem)
+                R = z3.Const(fresh_name("flt"), z3.Select(el, it.ref).sort())
+                L = z3.Select(el, it.ref)
+                k_, j_ = z3.Int(fresh_name("fk")), z3.Int(fresh_name("fj"))
+                st2 = st2.assume(rn >= 0, rn <= ln,
+                                 z3.ForAll([j_], z3.Implies(z3.And(j_ >= 0, j_ < ln), facts_of(z3.Select(L, j_)))),
+                                 z3.ForAll([k_], z3.Implies(z3.And(k_ >= 0, k_ < rn), z3.And(
+                                     P(z3.Select(R, k_)), z3.Exists([j_], z3.And(j_ >= 0, j_ < ln, z3.Select(L, j_) == z3.Select(R, k_)))))),
+                                 z3.ForAll([j_], z3.Implies(z3.And(j_ >= 0, j_ < ln, P(z3.Select(L, j_))),
+                                                            z3.Exists([k_], z3.And(k_ >= 0, k_ < rn, z3.Select(R, k_) == z3.Select(L, j_))))))
+                st2 = st2.hset("L.len", z3.Store(self._len_arr(st2), ref, rn))
+                st2 = st2.hset(key, z3.Store(el, ref, R))
+                yield VList(it.elem, "seq", ref), st2
+                continue
             # symbolic iterable: filter comprehension [x for x in L if p(x)] in bag view
             if isinstance(it, VList) and isinstance(node.elt, ast.Name) and isinstance(gen.target, ast.Name) \
                     and node.elt.id == gen.target.id and kind in ("list", "set"):
@@ -1340,6 +1390,26 @@ class Exec(ExecBase):
     def st_FunctionDef(self, s: ast.FunctionDef, st: State) -> Iterator[Out]:
         fi = FuncInfo(self.fi.qualname + "::" + s.name, None, s, self.fi.module, None, self.fi.file, s.lineno, outer=self.fi)
         yield "fall", None, st.bind(s.name, VFunc("closure", fi=fi, env=dict(st.env)))
+
+
+def _fresh_consts(f: Any) -> Dict[int, Any]:
+    """the uninterpreted constants of a formula that come from fresh_name (their names carry a `!`), by term id"""
+    out: Dict[int, Any] = {}
+    seen = set()
+    todo = [f]
+    while todo:
+        t = todo.pop()
+        if t.get_id() in seen:
+            continue
+        seen.add(t.get_id())
+        if z3.is_quantifier(t):
+            todo.append(t.body())
+            continue
+        if z3.is_app(t):
+            if t.num_args() == 0 and t.decl().kind() == z3.Z3_OP_UNINTERPRETED and "!" in t.decl().name():
+                out[t.get_id()] = t
+            todo.extend(t.children())
+    return out
 
 
 def _component_sort(key: str) -> Any:
